@@ -35,9 +35,10 @@ res["applied_to_repo"] = a.returncode == 0
 det = {}
 try:
     for c in checks:
-        r = sh("./check %s --tier %s 2>&1 | tail -4" % (c, os.environ.get("TIER", "quick")), cwd="/verif")
+        r = sh("./check %s --tier %s 2>&1" % (c, os.environ.get("TIER", "quick")), cwd="/verif")
         v = [l for l in r.stdout.split("\n") if l.startswith("VIOLATION")]
-        det[c] = {"detected": bool(v), "tail": r.stdout[-700:]}
+        ora = [l for l in r.stdout.split("\n") if l.startswith("[check] oracle:")]
+        det[c] = {"detected": bool(v), "tail": (ora[0][:500] + "\n" if ora else "") + r.stdout[-400:]}
 finally:
     sh("git -C /repo checkout -- .")
 res["checks"] = det
